@@ -108,6 +108,13 @@ func RunExpire(seed int64, p ExpProfile) (out []Ev) {
 	P, plog := mk("P")
 	defer P.Close()
 	ms := func() int { return int(time.Since(start) / time.Millisecond) }
+	// a time-to-live was set by a call that began at t0 and has just returned: the deadline it buffered lies between
+	// (t0 + ttl) and (now + ttl), whatever the transaction did before (logged from inside the callback)
+	logSet := func(o uint32, t0 time.Time, ttl time.Duration) {
+		// (one millisecond of slack on either side: the library's deadline is wall-clock, these readings are monotonic)
+		w.T.Log(Ev{"e": "xset", "c": "P", "o": int(o), "lo": int(t0.Sub(start)/time.Millisecond) + int(ttl/time.Millisecond) - 1,
+			"hi": ms() + int(ttl/time.Millisecond) + 1})
+	}
 	poll := func(name string, c *column.Collection) {
 		rows := []int{}
 		c.Query(func(txn *column.Txn) error {
@@ -159,7 +166,9 @@ func RunExpire(seed int64, p ExpProfile) (out []Ev) {
 	setExtend := func(o uint32, ttl, by time.Duration) {
 		P.Query(func(txn *column.Txn) error {
 			return txn.QueryAt(o, func(column.Row) error {
+				t0 := time.Now()
 				txn.TTL().Set(ttl)
+				logSet(o, t0, ttl)
 				txn.TTL().Extend(by)
 				return nil
 			})
@@ -169,7 +178,9 @@ func RunExpire(seed int64, p ExpProfile) (out []Ev) {
 	insertExtended := func(ttl, by time.Duration) (o uint32) {
 		P.Query(func(txn *column.Txn) error {
 			o, _ = txn.Insert(func(r column.Row) error {
+				t0 := time.Now()
 				r.SetTTL(ttl)
+				logSet(r.Index(), t0, ttl)
 				txn.TTL().Extend(by)
 				return nil
 			})
@@ -177,6 +188,20 @@ func RunExpire(seed int64, p ExpProfile) (out []Ev) {
 		})
 		w.T.Log(Ev{"e": "xext", "c": "P", "o": int(o), "by": int(by / time.Millisecond)})
 		return
+	}
+	// the accessor is obtained first and used some tens of milliseconds later in the same transaction (a range over many
+	// rows, slow per-row work): the time-to-live counts from the call that sets it
+	lateSet := func(o uint32, gap, ttl time.Duration) {
+		P.Query(func(txn *column.Txn) error {
+			acc := txn.TTL()
+			time.Sleep(gap)
+			return txn.QueryAt(o, func(column.Row) error {
+				t0 := time.Now()
+				acc.Set(ttl)
+				logSet(o, t0, ttl)
+				return nil
+			})
+		})
 	}
 	type kind int
 	var short, long, none, ext []uint32
@@ -202,13 +227,24 @@ func RunExpire(seed int64, p ExpProfile) (out []Ev) {
 		o, _ := P.Insert(func(r column.Row) error {
 			r.SetInt("a", i)
 			if ttl > 0 {
+				t0 := time.Now()
 				r.SetTTL(ttl)
+				logSet(r.Index(), t0, ttl)
 			}
 			return nil
 		})
 		switch k {
-		case 4: // no TTL at first; set and extended in one later transaction
-			if rnd.Intn(2) == 0 {
+		case 4: // no TTL at first; set (through an accessor taken earlier), or set and extended, in one later transaction
+			if rnd.Intn(3) == 0 {
+				gap := time.Duration(20+rnd.Intn(40)) * time.Millisecond
+				if rnd.Intn(2) == 0 {
+					lateSet(o, gap, time.Hour)
+					long = append(long, o)
+				} else {
+					lateSet(o, gap, time.Duration(80+rnd.Intn(200))*time.Millisecond)
+					short = append(short, o)
+				}
+			} else if rnd.Intn(2) == 0 {
 				setExtend(o, time.Duration(100+rnd.Intn(100))*time.Millisecond, time.Hour)
 				long = append(long, o)
 			} else {
@@ -227,7 +263,7 @@ func RunExpire(seed int64, p ExpProfile) (out []Ev) {
 	}
 	if p.Bait {
 		ttl := 120 * time.Millisecond
-		bait, _ = P.Insert(func(r column.Row) error { r.SetTTL(ttl); return nil })
+		bait, _ = P.Insert(func(r column.Row) error { t0 := time.Now(); r.SetTTL(ttl); logSet(r.Index(), t0, ttl); return nil })
 		hookMu.Lock()
 		baitDeadline, baitArmed = time.Now().Add(ttl+2*time.Millisecond), true
 		hookMu.Unlock()
@@ -256,7 +292,7 @@ func RunExpire(seed int64, p ExpProfile) (out []Ev) {
 		case 1: // a late insert with a short TTL
 			if ms() < p.RunMs-3500 {
 				ttl := time.Duration(20+rnd.Intn(100)) * time.Millisecond
-				P.Insert(func(r column.Row) error { r.SetTTL(ttl); return nil })
+				P.Insert(func(r column.Row) error { t0 := time.Now(); r.SetTTL(ttl); logSet(r.Index(), t0, ttl); return nil })
 			}
 		case 2:
 			if len(long) > 0 {
